@@ -252,6 +252,8 @@ def run(ctx):
         failure_buckets=nb, gfortran_validated_projects=len(gfset),
     )
     ctx.assumptions += [
+        'signatures: every failing case is reduced to a minimal failing case (any symptom); signature = symptom of that core + '
+        'the attributes it still needs; Loki\'s 30 s wall-clock REGEX-frontend timeout is switched off (load-dependent)',
         'ground truth = dependency relation known to the generator by construction; item names as documented (scope#name)',
         'module item for a qualified import, type edge under a bare USE, flags below ignored items, indirection through '
         'bindings/interfaces under routine-level entries: don\'t-care (documentation silent)',
